@@ -117,9 +117,10 @@ void RepeatAction::onChildFinished(bool is_succ, const Reason &why, const Trace 
 
     } else {
         if (remain_times_ > 0) {
+            //! 先减次数再启动子动作：子动作 start() 期间的回调若 reset() 并重新 start() 了本动作，onStart() 新设的次数不能被这里再减一次
+            --remain_times_;
             child_->reset();
             startThisAction(child_);
-            --remain_times_;
 
         } else {
             finish(true, Reason(ACTION_REASON_REPEAT_NO_TIMES, "RepeatNoTimes"));
